@@ -140,6 +140,7 @@ func c07Frames(x *core.Ctx) []CFrame {
 	} {
 		fr = append(fr, CFrame{Name: bp.name, B: mustEncode(bp.p, spec.Form{}), Valid: true, Type: bp.p.Type})
 	}
+	fr = append(fr, minedBigFrames()...)
 	if x.Thorough() {
 		// one frame whose body needs many reads on a slow link
 		p := &spec.Packet{Type: 3, Topic: []byte("big"), Payload: gen.Content('L', 70*1024)}
@@ -157,6 +158,15 @@ func c07Patterns(n int) []env.Pattern {
 	}
 	if n > 100_000 {
 		ps = ps[3:] // byte-wise delivery of megabytes is left out
+	}
+	// idle-read runs as long as the counts the tree's own constants name
+	// (a "give up after N empty reads" guard has its N in the source)
+	seen := map[int]bool{99: true, 100: true, 101: true, 1: true, 3: true}
+	for _, k := range append(append([]int{}, Mined.NovelCounts...), Mined.NovelLens...) {
+		if k > 3 && k <= 2100 && !seen[k] && len(ps) < 40 {
+			seen[k] = true
+			ps = append(ps, env.Pattern{Chunk: 0, ZeroBefore: k})
+		}
 	}
 	return ps
 }
